@@ -999,6 +999,63 @@ fn run_badka(t: char, side: char) -> (String, String, String, String) {
     }
 }
 
+/// a slow reader: the acceptor's callback sleeps 150 ms per Message.  The peer sends one small piece, waits
+/// until the node is inside that callback, sends a tail of several read buffers (192 KiB; for FramedTcp three
+/// 64 KiB messages) and then stays connected and silent.  Everything must reach the callback although no
+/// further traffic follows: the adapter's read loop may only stop when the socket has nothing left.
+fn run_slow_reader(t: char) -> (String, String, String, String) {
+    let tr = transport(t);
+    let (rh, rl) = node::split::<()>();
+    let (_lid, addr) = rh.network().listen(tr, "127.0.0.1:0").unwrap();
+    let got: Arc<Mutex<Vec<Vec<u8>>>> = Arc::new(Mutex::new(vec![]));
+    let g2 = got.clone();
+    let _rtask = rl.for_each_async(move |e| {
+        if let NodeEvent::Network(NetEvent::Message(_, d)) = e {
+            g2.lock().unwrap().push(d.to_vec());
+            std::thread::sleep(Duration::from_millis(150));
+        }
+    });
+    let Ok(mut peer) = std::net::TcpStream::connect(addr) else {
+        return ("#slowreader-setup".into(), "error".into(), "FAIL setup".into(), "slowreader".into())
+    };
+    peer.set_nodelay(true).ok();
+    std::thread::sleep(Duration::from_millis(50));
+    let frame = |m: &[u8]| -> Vec<u8> { if t == 'F' { [varint(m.len() as u64), m.to_vec()].concat() } else { m.to_vec() } };
+    let first = vec![1u8; 1];
+    let tail: Vec<Vec<u8>> = (0..3).map(|k| (0..65536usize).map(|i| (i * 7 + k * 13) as u8).collect()).collect();
+    let _ = peer.write_all(&frame(&first));
+    // wait until the node is inside the first callback
+    let t0 = Instant::now();
+    while got.lock().unwrap().is_empty() && t0.elapsed() < Duration::from_secs(2) {
+        std::thread::sleep(Duration::from_millis(2));
+    }
+    std::thread::sleep(Duration::from_millis(20));
+    for m in &tail {
+        let _ = peer.write_all(&frame(m));
+    }
+    let want: Vec<u8> = [first.clone(), tail.concat()].concat();
+    let deadline = Instant::now() + Duration::from_secs(6);
+    loop {
+        let n: usize = got.lock().unwrap().iter().map(|d| d.len()).sum();
+        if n >= want.len() || Instant::now() > deadline {
+            break
+        }
+        std::thread::sleep(Duration::from_millis(10));
+    }
+    std::thread::sleep(Duration::from_millis(200));
+    let msgs = got.lock().unwrap().clone();
+    rh.stop();
+    drop(peer);
+    let flat = msgs.concat();
+    let ok = flat == want && (t == 'T' || msgs.len() == 4);
+    (
+        format!("stream slowreader {}", t),
+        format!("delivered={}", if ok { "all" } else { "not-all" }),
+        if ok { "ok".into() } else { format!("FAIL {} of {} bytes ({} events) reached the callback 6 s after the peer went silent", flat.len(), want.len(), msgs.len()) },
+        format!("slowreader{},multi-buffer,slow-receiver", t),
+    )
+}
+
 /// C10: several threads (and the receiver's own callback thread of the *sending* node) send on one endpoint
 fn run_mt(t: char, threads: usize, per: usize, size: usize) -> (String, String, String, String) {
     let tr = transport(t);
@@ -1163,6 +1220,12 @@ fn main() {
                 }
             }
         }
+        "gen-slowreader" => {
+            for t in arg(2).chars() {
+                let (c, im, o, tg) = run_slow_reader(t);
+                emit(&mut out, &c, &im, &o, &tg);
+            }
+        }
         "gen-duplex" => {
             for t in arg(2).chars() {
                 let (c, im, o, tg) = run_duplex(t, 24 << 20, arg_u64(3, 700));
@@ -1220,6 +1283,10 @@ fn main() {
                 cases.push(('W', c2a, (32 << 20) + 1));
                 cases.push(('F', c2a, 70000));
                 cases.push(('T', c2a, 70000));
+                // the empty payload is a payload: accepted (Sent) on a live connection of every transport
+                for t in ['U', 'W', 'F', 'T'] {
+                    cases.push((t, c2a, 0));
+                }
                 if thorough {
                     for len in [(16usize << 20) - 1, 16 << 20, (32 << 20) - 1, 32 << 20, 40 << 20] {
                         cases.push(('W', c2a, len));
@@ -1268,6 +1335,10 @@ fn main() {
                 }
                 else if ws.len() == 5 && ws[0] == "stream" && ws[1] == "size" {
                     let (c, i, o, tg) = run_size(ws[2].chars().next().unwrap_or('W'), ws[3] == "c2a", ws[4].parse().unwrap_or(0));
+                    emit(&mut out, &c, &i, &o, &tg);
+                }
+                else if ws.len() == 3 && ws[0] == "stream" && ws[1] == "slowreader" {
+                    let (c, i, o, tg) = run_slow_reader(ws[2].chars().next().unwrap_or('T'));
                     emit(&mut out, &c, &i, &o, &tg);
                 }
                 else if ws.len() == 4 && ws[0] == "stream" && ws[1] == "badka" {
